@@ -1,7 +1,7 @@
 (* The case language: instructions over a pool of objects of the three representations,
    interpreted by the faithful model and, side by side, by the specification. *)
 From BBF Require Import Base.Prelude Base.Names Base.Bits Spec.Sem
-     Model.Expr Model.Table Model.LibBdd Model.Bdd.
+     Model.Expr Model.Table Model.LibBdd Model.Bdd Model.Lexer Model.Parser Model.Display.
 
 Inductive obj : Type := OE (e : expr) | OT (t : table) | OB (b : bdd).
 
@@ -10,7 +10,7 @@ Inductive obj : Type := OE (e : expr) | OT (t : table) | OB (b : bdd).
 Record entry : Type := { e_obj : obj; e_spec : bf; e_opaque : bool }.
 Definition pool := list (option entry).
 
-Inductive kind := KE | KT | KB.
+Inductive okind := KE | KT | KB.
 Inductive op1 := ONot | ONnf | OCnf | ODnf.
 Inductive op2 := OAnd | OOr | OXor | OImply | OIff.
 Inductive quant := QExists | QForall | QDeriv.
@@ -19,15 +19,16 @@ Inductive instr : Type :=
 | IExpr (e : expr)
 | IOp1 (o : op1) (r : nat)
 | IOp2 (o : op2) (r1 r2 : nat)
-| IConv (k : kind) (r : nat)
+| IConv (k : okind) (r : nat)
 | IRestrict (r : nat) (rho : valuation)
 | IQuant (q : quant) (r : nat) (vars : list name)
 | ISubst (r : nat) (m : list (name * nat))
-| IMkConst (k : kind) (b : bool)
-| IMkLiteral (k : kind) (x : name) (b : bool)
+| IMkConst (k : okind) (b : bool)
+| IMkLiteral (k : okind) (x : name) (b : bool)
 | INary (cj : bool) (rs : list nat)
 | IBinary (cj : bool) (r1 r2 : nat)
-| INegate (r : nat).
+| INegate (r : nat)
+| IParse (s : list N).
 
 Definition debug_build := true.   (* the harness is built with debug assertions *)
 
@@ -36,7 +37,7 @@ Definition reg (p : pool) (r : nat) : option entry :=
 
 Definition obj_inputs (o : obj) : list name :=
   match o with OE e => literals e | OT t => t_literals t | OB b => b_literals b end.
-Definition obj_kind (o : obj) : kind := match o with OE _ => KE | OT _ => KT | OB _ => KB end.
+Definition obj_kind (o : obj) : okind := match o with OE _ => KE | OT _ => KT | OB _ => KB end.
 
 Definition bool_op (o : op2) : bool -> bool -> bool :=
   match o with OAnd => andb | OOr => orb | OXor => xorb | OImply => implb | OIff => Bool.eqb end.
@@ -71,7 +72,7 @@ Definition exec_op2 (o : op2) (x y : obj) : Res obj :=
   | _, _ => na
   end.
 
-Definition exec_conv (k : kind) (x : obj) : Res obj :=
+Definition exec_conv (k : okind) (x : obj) : Res obj :=
   match k, x with
   | KE, OE e => Ok (OE e)
   | KT, OT t => Ok (OT t)
@@ -156,7 +157,7 @@ Fixpoint exprs_of (l : list obj) : option (list expr) :=
 (* the specification of the same instruction *)
 Definition spec_op2 (o : op2) (f g : bf) : bf := spec_bin (bool_op o) f g.
 
-Definition subst_ins (k : kind) (x : obj) (f : bf) (m : list (name * bf)) : list name :=
+Definition subst_ins (k : okind) (x : obj) (f : bf) (m : list (name * bf)) : list name :=
   match k with
   | KB => (* keys that are not inputs of the diagram are skipped altogether *)
       let m1 := filter (fun kg => mem (fst kg) (ins f)) m in
@@ -267,6 +268,9 @@ Definition exec (p : pool) (i : instr) : Res entry :=
           end
       | _, _ => na
       end
+  | IParse s =>
+      e <- from_str s ;;
+      Ok {| e_obj := OE e; e_spec := {| ins := literals e; fn := fun v => sem v e |}; e_opaque := false |}
   | INegate r =>
       match reg p r with
       | Some x => match e_obj x with
